@@ -37,7 +37,9 @@ public:
 
     source_location find(const std::size_t offset) const
     {
-        const auto search = std::lower_bound(
+        assert(!ranges.empty() && "No content");
+
+        auto search = std::lower_bound(
             std::begin(ranges),
             std::end(ranges),
             offset,
@@ -46,7 +48,12 @@ public:
                 return lhs.end < rhs;
             });
 
-        assert(search != std::end(ranges) && "Offset is out of range");
+        if(search == std::end(ranges))
+        {
+            // XML parser can report an error past the end of a truncated
+            // document, attribute it to the last line
+            --search;
+        }
 
         const auto line =
             static_cast<std::size_t>(search - std::begin(ranges) + 1);
